@@ -19,8 +19,8 @@ static inline unsigned gf16_mul_u(unsigned a, unsigned b)
 /* the real functions index 65536-entry tables: arguments outside the field are an
  * out-of-bounds read there, so they are a property violation here */
 #define GF_DOM(x) __CPROVER_assert((x) >= 0 && (x) < 65536, "VP:rs_galois argument outside GF(2^16) (table index out of bounds in the real code)")
-extern int *log_table;
-#define GF_TABLES() __CPROVER_assert(log_table != 0, "VP:rs_galois arithmetic used while the tables are not initialised")
+extern int *log_table, *ilog_table;
+#define GF_TABLES() __CPROVER_assert(log_table != 0 && ilog_table != 0, "VP:rs_galois arithmetic used while the tables are not (completely) initialised")
 #else
 #define GF_DOM(x)
 #define GF_TABLES()
